@@ -6,12 +6,12 @@ require (
 	github.com/anishathalye/porcupine v1.3.0
 	github.com/hashicorp/go-argmapper v0.0.0
 	github.com/hashicorp/go-hclog v0.14.0
+	github.com/hashicorp/go-multierror v1.1.0
 )
 
 require (
 	github.com/fatih/color v1.7.0 // indirect
 	github.com/hashicorp/errwrap v1.0.0 // indirect
-	github.com/hashicorp/go-multierror v1.1.0 // indirect
 	github.com/mattn/go-colorable v0.1.4 // indirect
 	github.com/mattn/go-isatty v0.0.10 // indirect
 	golang.org/x/sys v0.0.0-20191008105621-543471e840be // indirect
